@@ -96,8 +96,8 @@ type kvCfg struct {
 }
 
 type kvEntry struct {
-	tok  int
-	pos  int32
+	tok int
+	pos int32
 	// windowed caches: the entry has been behind the retention window of its sequence
 	// at some StartForward, so the cache was entitled to drop it:
 	// 1 = at a StartForward that stored its batch, 2 = only at one that reported "full"
@@ -137,8 +137,8 @@ type kvRun struct {
 	stopped bool
 
 	shiftCalls, shiftErrs, intErrs int
-	wasFull                       bool
-	mergedDefrag                  bool // a defrag combined two or more adjacent cells into one copy
+	wasFull                        bool
+	mergedDefrag                   bool // a defrag combined two or more adjacent cells into one copy
 }
 
 func (r *kvRun) draw(n int) int { return r.tape.Draw(n) }
@@ -243,7 +243,7 @@ func (r *kvRun) drawCfg() {
 		c.capacity = 2 + r.draw(47)
 	}
 	c.maxBatch = 1 + r.draw(min(c.capacity, 8))
-	if big && r.draw(4) == 0 {
+	if big && r.draw(4) == 3 {
 		c.maxBatch = 1 + r.draw(min(c.capacity, 24))
 	}
 	if c.kind != kvKindCausal {
@@ -289,7 +289,7 @@ func (r *kvRun) drawCfg() {
 	target := []int{1000, 1, 2, 3, 1, 5}[r.draw(6)]
 	c.maxNodes = 2*c.layers + 6*c.layers*target + r.draw(6*c.layers)
 	c.shiftMode = []int{kvShiftOK, kvShiftOK, kvShiftOK, kvShiftUnsupported, kvShiftFailing, kvShiftBackendFail}[r.draw(6)]
-	c.maskFail = r.draw(10) == 0
+	c.maskFail = r.draw(10) == 9
 	c.nops = 8 + r.draw(40)
 	if big {
 		c.nops = 8 + r.draw(160)
@@ -298,8 +298,8 @@ func (r *kvRun) drawCfg() {
 	if c.nseq < 2 {
 		c.weights[1] = 0
 	}
-	c.overBatch = r.draw(6) == 0
-	c.avoidEvicted = c.kind != kvKindCausal && r.draw(2) == 0
+	c.overBatch = r.draw(6) == 5
+	c.avoidEvicted = c.kind != kvKindCausal && r.draw(2) == 1
 }
 
 func (r *kvRun) build() {
@@ -346,7 +346,7 @@ func (r *kvRun) build() {
 // stored in element 1 of every key vector.
 func (r *kvRun) shift(ctx ml.Context, layer int, key, shift ml.Tensor) (ml.Tensor, error) {
 	r.shiftCalls++
-	if r.cfg.shiftMode == kvShiftFailing && r.draw(3) == 0 {
+	if r.cfg.shiftMode == kvShiftFailing && r.draw(3) == 2 {
 		r.shiftErrs++
 		r.fault("shift_fn_error")
 		return nil, errors.New("sim model: shift failed (injected)")
@@ -422,7 +422,7 @@ func (r *kvRun) distinctLive() int {
 func (r *kvRun) drawBatch() []kvRow {
 	c := &r.cfg
 	maxRows := c.maxBatch
-	if c.overBatch && r.draw(4) == 0 {
+	if c.overBatch && r.draw(4) == 3 {
 		maxRows = 2*c.maxBatch + 1
 	}
 	n := 1 + r.draw(maxRows)
@@ -488,7 +488,7 @@ func (r *kvRun) doBatch(rows []kvRow, why string) bool {
 	maskFailed := false
 	if c.maskFail {
 		r.be.failFloat = func() bool {
-			if r.draw(6) == 0 {
+			if r.draw(6) == 5 {
 				maskFailed = true
 				return true
 			}
@@ -949,9 +949,10 @@ func (r *kvRun) resume(s, p int, op string) {
 			p = 0
 		} else if r.cfg.kind != kvKindCausal {
 			r.probe("canresume_true_windowed")
+			r.note("  CanResume(%d,%d)=true", s, p)
 		}
 	}
-	if p == len(r.ref[s]) && r.draw(2) == 0 {
+	if p == len(r.ref[s]) && r.draw(2) == 1 {
 		// nothing to remove: a caller may or may not issue the no-op Remove
 		r.lastOp[s] = op
 		r.noteCause(s, op)
@@ -977,7 +978,7 @@ func (r *kvRun) opCopy() {
 		return
 	}
 	src := r.liveSeqs(1)
-	if len(src) == 0 || r.draw(8) == 0 {
+	if len(src) == 0 || r.draw(8) == 7 {
 		src = r.liveSeqs(0) // copying from an empty sequence empties the destination
 	}
 	s := src[r.draw(len(src))]
@@ -1005,7 +1006,7 @@ func (r *kvRun) opCopy() {
 	r.lastOp[d] = "copy"
 	// the runner then loads the slot: keep everything or all but the last input
 	p := len(r.ref[d])
-	if p > 0 && r.draw(2) == 0 {
+	if p > 0 && r.draw(2) == 1 {
 		p--
 	}
 	r.resume(d, p, "copy")
@@ -1099,7 +1100,7 @@ func (r *kvRun) opRemoveRange() {
 	r.shiftCalls, r.shiftErrs, r.intErrs = 0, 0, 0
 	if r.cfg.shiftMode == kvShiftBackendFail {
 		r.be.failInt = func() bool {
-			if r.draw(3) == 0 {
+			if r.draw(3) == 2 {
 				r.intErrs++
 				r.fault("shift_upload_error")
 				return true
@@ -1240,7 +1241,7 @@ func runKV(t *testing.T, tape *verifsim.Tape, prop, tier string, keepLog bool) (
 	}
 	for r.ops = 0; r.ops < c.nops && !r.stopped; r.ops++ {
 		x := r.draw(total)
-		if r.wasFull && r.draw(2) == 0 {
+		if r.wasFull && r.draw(2) == 1 {
 			// a caller that was told "full" makes room
 			r.wasFull = false
 			if r.draw(2) == 0 {
